@@ -94,7 +94,9 @@ class Encoder(object):
             self.e += op[1]
             return ["G1 E%s F%s" % (fmt(self.e / self.unit, self.nd), fmt(1800 / self.unit, 3))]
         if k == "fw":
-            return [op[1] + ((" " + op[2]) if op[2] else "")]
+            # op[2]: parameter text with its own separator ("", " S1", "S1", "  S1"); op[3]: indented
+            par = op[2] if (not op[2] or op[2][0] == " " or (len(op) > 3 and op[3] == "compact")) else " " + op[2]
+            return [(" " if len(op) > 3 and op[3] == "indent" else "") + op[1] + par]
         if k == "g92e":
             self.e = op[1]
             return ["G92 E" + fmt(op[1] / self.unit, self.nd)]
@@ -195,7 +197,8 @@ def gen_path(r, regions, opts):
                 x, y = nx, ny
         elif k < 0.62:
             if opts.get("fw"):
-                ops.append(("fw", "G11" if retracted else "G10", r.choice(["", "", "S1"])))
+                ops.append(("fw", "G11" if retracted else "G10", r.choice(["", "", "S1", "  S1"]),
+                            r.choice(["", "", "", "indent", "compact"])))
             else:
                 ops.append(("eonly", a if retracted else -a))
             retracted = not retracted
@@ -226,7 +229,7 @@ def gen_path(r, regions, opts):
             enabled = not enabled
             if r.random() < (0.85 if opts.get("at_junk") else 0.4):
                 ops.append(("at", r.choice(["ExcludeRegion", "ExcludeRegion", "Other", "Region"]),
-                            r.choice(["bogus", "", "offf", "turn off", "not on", "x off", "go on", "stop"])))
+                            r.choice(["bogus", "", "", " ", "offf", "turn off", "not on", "x off", "go on", "stop"])))
         elif k < 0.96 and opts.get("arcs") and (absmode or opts.get("rel_arcs")) \
                 and (mm or opts.get("inch_arcs")):
             # arc about a centre; keep it on a grid so that it is exact
@@ -284,7 +287,8 @@ def gen_episode_path(r, regions, opts):
         k = r.random()
         if k < 0.25:
             if opts.get("fw"):
-                ops.append(("fw", "G11" if st["retracted"] else "G10", r.choice(["", "", "S1"])))
+                ops.append(("fw", "G11" if st["retracted"] else "G10", r.choice(["", "", "S1", "  S1"]),
+                            r.choice(["", "", "", "indent", "compact"])))
             else:
                 ops.append(("eonly", a if st["retracted"] else -a))
             st["retracted"] = not st["retracted"]
@@ -396,6 +400,10 @@ def random_cfg(r, regions=None):
         cfg["at"] = [("ExcludeRegion", "[ ]*(stop|off)(\\s|$)", "disable_exclusion"),
                      ("ExcludeRegion", "[Oo]n", "enable_exclusion"),
                      ("Region", None, "disable_exclusion")]
+    elif k < 0.26:
+        # patterns that accept an empty parameter text: the bare @-command triggers the action
+        cfg["at"] = [("ExcludeRegion", "^\\s*$", "disable_exclusion"), ("ExcludeRegion", "on", "enable_exclusion"),
+                     ("Other", "", "disable_exclusion")]
     return cfg
 
 
@@ -407,6 +415,9 @@ def random_regions(r):
         return [("R", "a", 10.0, 10.0, 20.0, 20.0)]
     if k < 0.8:
         return [("R", "a", 20.0, 20.0, 10.0, 10.0), ("R", "c", 40.0, 38.0, 50.0, 48.0)]
-    if k < 0.9:
+    if k < 0.88:
         return [("C", "a", 15.0, 15.0, 7.5), ("C", "b", 44.0, 43.0, 5.0)]
+    if k < 0.95:
+        # a circle far off the diagonal (its mirror image about the diagonal lies on common points)
+        return [("R", "a", 10.0, 10.0, 20.0, 20.0), ("C", "d", 30.0, 62.0, 6.0), ("C", "e", 70.5, 40.0, 4.0)]
     return []
